@@ -319,9 +319,10 @@ class GridWeighted(Grid):
         if not self._cache['gridptsw']:
             for idx, cols in enumerate(self._grid_points):
                 weighted_gp_row = []
-                for row in cols:
-                    temp = [r * self._weights[idx] for r in row]
-                    temp.append(self._weights[idx])
+                for jdx, row in enumerate(cols):
+                    weight = self._weights[jdx + (idx * len(cols))]
+                    temp = [r * weight for r in row]
+                    temp.append(weight)
                     weighted_gp_row.append(temp)
                 self._cache['gridptsw'].append(weighted_gp_row)
 
